@@ -613,4 +613,243 @@ theorem Txn.delete_adv {sch : SchemaEval} {t t' : Txn} {h : Handle} {q : Doc} {s
           exact .inr ⟨rfl, deleteOp_adv hno hid hk hop⟩
         · simp only [Except.ok.injEq, Prod.mk.injEq] at hr; exact .inl hr.1.symm
 
+/-! ### writes that leave the documents alone; drop; expire -/
+
+/-- replacing a namespace by a collection with the same documents changes no contents -/
+theorem Adv.same_docs (cat : Catalog) (h : Handle) (coll : Coll) (hno : h ≠ oplogHandle)
+    (hd : coll.docs = (ensureNs cat h).docs) : Adv cat (cat.set h coll) [] := by
+  refine ⟨Ext.set _ _ _ hno, ?_⟩
+  intro h' _
+  rw [docsOf_set]
+  by_cases e : h' = h
+  · subst e; simp [docsOf_ensureNs, hd]
+  · simp [e]
+
+theorem Txn.create_adv {t t' : Txn} {h : Handle} (hr : t.create h = .ok t') : TAdv t t' := by
+  unfold Txn.create at hr
+  split at hr
+  · cases hr
+  · rename_i hw
+    split at hr
+    · simp only [Except.ok.injEq] at hr; exact .inl hr.symm
+    · rename_i hn
+      simp only [Except.ok.injEq] at hr
+      subst hr
+      refine .inr ⟨rfl, _, Adv.same_docs _ _ _ (writable_not_oplog hw) ?_⟩
+      have : t.catalog.get? h = none := by
+        cases hg : t.catalog.get? h with
+        | none => rfl
+        | some _ => simp [hg] at hn
+      simp [ensureNs, this]
+
+theorem Coll.createIndex_docs {sch : SchemaEval} {c c' : Coll} {name name' : String} {cfg : IndexConfig}
+    (h : c.createIndex sch name cfg = .ok (c', name')) : c'.docs = c.docs := by
+  unfold Coll.createIndex at h
+  simp only at h
+  repeat' split at h
+  all_goals first
+    | (simp only [Except.ok.injEq, Prod.mk.injEq] at h; obtain ⟨rfl, _⟩ := h; rfl)
+    | cases h
+
+theorem Txn.createIndex_adv {sch : SchemaEval} {t t' : Txn} {h : Handle} {name name' : String} {cfg : IndexConfig}
+    (hr : t.createIndex sch h name cfg = .ok (t', name')) : TAdv t t' := by
+  unfold Txn.createIndex at hr
+  split at hr
+  · cases hr
+  · rename_i hw
+    split at hr
+    · cases hr
+    · rename_i coll nm hci
+      simp only [Except.ok.injEq, Prod.mk.injEq] at hr
+      obtain ⟨rfl, _⟩ := hr
+      exact .inr ⟨rfl, _, Adv.same_docs _ _ _ (writable_not_oplog hw) (Coll.createIndex_docs hci)⟩
+
+theorem Coll.dropIndex_docs {c c' : Coll} {name : String} {dropped : List String}
+    (h : c.dropIndex name = .ok (c', dropped)) : c'.docs = c.docs := by
+  unfold Coll.dropIndex at h
+  split at h
+  · split at h
+    · cases h
+    · split at h
+      · cases h
+      · simp only [Except.ok.injEq, Prod.mk.injEq] at h; rw [← h.1]
+  · simp only [Except.ok.injEq, Prod.mk.injEq] at h; rw [← h.1]
+
+theorem Txn.dropIndex_adv {t t' : Txn} {h : Handle} {name : String} (hr : t.dropIndex h name = .ok t') : TAdv t t' := by
+  unfold Txn.dropIndex at hr
+  split at hr
+  · cases hr
+  · rename_i hw
+    split at hr
+    · cases hr
+    · rename_i c hc
+      split at hr
+      · cases hr
+      · rename_i coll dropped hdi
+        split at hr
+        · simp only [Except.ok.injEq] at hr; exact .inl hr.symm
+        · simp only [Except.ok.injEq] at hr
+          subst hr
+          refine .inr ⟨rfl, _, Adv.same_docs _ _ _ (writable_not_oplog hw) ?_⟩
+          rw [Coll.dropIndex_docs hdi, ensureNs_of_get hc]
+
+theorem Txn.dropIndexByKey_adv {t t' : Txn} {h : Handle} {key : Doc} (hr : t.dropIndexByKey h key = .ok t') : TAdv t t' := by
+  unfold Txn.dropIndexByKey at hr
+  split at hr
+  · cases hr
+  · split at hr
+    · cases hr
+    · split at hr
+      · cases hr
+      · exact Txn.dropIndex_adv hr
+
+theorem find?_filter_key {β} (l : List (Handle × β)) (p : Handle → Bool) (h' : Handle) :
+    (l.filter fun a => p a.1).find? (fun a => a.1 == h') = if p h' then l.find? (fun a => a.1 == h') else none := by
+  induction l with
+  | nil => simp
+  | cons a r ih =>
+    by_cases ha : (a.1 == h') = true
+    · have e : a.1 = h' := by simpa using ha
+      by_cases hp : p a.1 = true
+      · simp only [List.filter_cons, hp, ↓reduceIte, List.find?_cons, ha]
+        simp [← e, hp]
+      · simp only [List.filter_cons, hp, Bool.false_eq_true, ↓reduceIte, List.find?_cons, ha]
+        rw [ih]
+        rw [e] at hp
+        simp [hp]
+    · by_cases hp : p a.1 = true
+      · simp only [List.filter_cons, hp, ↓reduceIte, List.find?_cons, ha]
+        exact ih
+      · simp only [List.filter_cons, hp, Bool.false_eq_true, ↓reduceIte, List.find?_cons, ha]
+        exact ih
+
+theorem docsOf_filter (cat : Catalog) (p : Handle → Bool) (h' : Handle) :
+    docsOf { cat with namespaces := cat.namespaces.filter fun a => p a.1 } h' = if p h' then docsOf cat h' else [] := by
+  unfold docsOf Catalog.get?
+  simp only
+  rw [find?_filter_key]
+  split <;> simp
+
+theorem fold_drops (dropped : List Handle) (h' : Handle) (L : List Doc) :
+    ((dropped.map fun ns => (⟨ns, "drop", none, none⟩ : EvSpec)).filterMap specChange).foldl
+        (fun l ch => changeDocs ch h' l) L
+      = if dropped.any (· == h') then [] else L := by
+  induction dropped generalizing L with
+  | nil => simp
+  | cons ns r ih =>
+    have hs : specChange ⟨ns, "drop", none, none⟩ = some (.drop ns) := by simp [specChange]
+    have hc : changeDocs (.drop ns) h' L = if h' = ns then [] else L := by simp [changeDocs]
+    simp only [List.map_cons, List.filterMap_cons, hs, List.foldl_cons]
+    rw [ih, hc]
+    by_cases e : h' = ns
+    · subst e; simp
+    · have : (ns == h') = false := by simpa using Ne.symm e
+      simp [e, this]
+
+theorem get?_none_of_not_mem (cat : Catalog) (h' : Handle) (hn : ∀ a ∈ cat.namespaces, a.1 ≠ h') : cat.get? h' = none := by
+  unfold Catalog.get?
+  rw [List.find?_eq_none.mpr]
+  · rfl
+  · intro a ha; simpa using hn a ha
+
+theorem Txn.drop_adv {t t' : Txn} {h : Handle} {nu nu' : Nu} (hr : t.drop h nu = .ok (t', nu')) : TAdv t t' := by
+  unfold Txn.drop at hr
+  split at hr
+  · cases hr
+  · rename_i hw
+    have hno := writable_not_oplog hw
+    have hdb := writable_db hw
+    simp only at hr
+    split at hr
+    · simp only [Except.ok.injEq, Prod.mk.injEq] at hr; exact .inl hr.1.symm
+    · simp only [Except.ok.injEq, Prod.mk.injEq] at hr
+      obtain ⟨rfl, _⟩ := hr
+      refine .inr ⟨rfl, ?_⟩
+      have hkeep : ∀ a : Handle × Coll, a.1 = oplogHandle →
+          (!(a.1 == h || (h.coll == "" && a.1.db == h.db))) = true := by
+        rintro ⟨ns, c⟩ hns
+        simp only at hns
+        subst hns
+        have e1 : (oplogHandle == h) = false := by simpa using Ne.symm hno
+        have e2 : (oplogHandle.db == h.db) = false := by
+          have : oplogHandle.db = "local" := rfl
+          rw [this]; simpa using Ne.symm hdb
+        simp [e1, e2]
+      -- the catalog without the dropped namespaces, and the dropped handles
+      have hcat0 : ∀ h', docsOf { t.catalog with namespaces := (t.catalog.namespaces.filter
+            fun x => match x with | (ns, _) => !(ns == h || (h.coll == "" && ns.db == h.db))) } h'
+          = if (!(h' == h || (h.coll == "" && h'.db == h.db))) then docsOf t.catalog h' else [] :=
+        fun h' => docsOf_filter t.catalog (fun ns => !(ns == h || (h.coll == "" && ns.db == h.db))) h'
+      have hf := foldl_appendOplog ((t.catalog.namespaces.filter
+          fun x => match x with | (ns, _) => (ns == h || (h.coll == "" && ns.db == h.db))).map (·.1))
+        (fun ns => (⟨ns, "drop", none, none⟩ : EvSpec))
+        ({ t.catalog with namespaces := (t.catalog.namespaces.filter
+          fun x => match x with | (ns, _) => !(ns == h || (h.coll == "" && ns.db == h.db))) }, nu)
+      simp only at hf
+      rw [hf]
+      have hmem : ∀ h', (((t.catalog.namespaces.filter
+          fun x => (x.1 == h || (h.coll == "" && x.1.db == h.db))).map (·.1)).any (· == h')) = false →
+          (h' == h || (h.coll == "" && h'.db == h.db)) = true → docsOf t.catalog h' = [] := by
+        intro h' hnot hhit
+        unfold docsOf
+        rw [get?_none_of_not_mem]
+        · rfl
+        · intro a ha e
+          rw [List.any_eq_false] at hnot
+          apply hnot a.1
+          · simp only [List.mem_map, List.mem_filter]
+            exact ⟨a, ⟨ha, by rw [e]; exact hhit⟩, rfl⟩
+          · simp [e]
+      split
+      · rename_i hcoll
+        refine ⟨_, Ext.trans (Ext.trans (Ext.filter t.catalog _ ?_) (Ext.appendEvs (_, nu) _)) (Ext.append ..), ?_⟩
+        · exact hkeep
+        · intro h' hne
+          rw [docsOf_appendOplog _ _ _ _ _ _ _ hne, docsOf_appendEvs _ _ _ hne, hcat0, List.filterMap_append,
+            List.foldl_append, List.nil_append, fold_drops]
+          have hs : specChange ⟨h, "dropDatabase", none, none⟩ = some (.dropDatabase h.db) := by simp [specChange]
+          simp only [List.filterMap_cons, hs, List.filterMap_nil, List.foldl_cons, List.foldl_nil, changeDocs]
+          by_cases hhit : (h' == h || (h.coll == "" && h'.db == h.db)) = true
+          · have hdb' : h'.db = h.db := by
+              simp only [Bool.or_eq_true, beq_iff_eq, Bool.and_eq_true] at hhit
+              rcases hhit with e | ⟨_, e⟩
+              · rw [e]
+              · exact e
+            rw [if_neg (by simp [hhit]), if_pos hdb']
+          · have hdb' : h'.db ≠ h.db := by
+              intro e
+              apply hhit
+              simp [hcoll, e] at *
+            have hnd : (((t.catalog.namespaces.filter
+                fun x => (x.1 == h || (h.coll == "" && x.1.db == h.db))).map (·.1)).any (· == h')) = false := by
+              rw [List.any_eq_false]
+              intro x hx hxe
+              simp only [List.mem_map, List.mem_filter] at hx
+              obtain ⟨a, ⟨_, hah⟩, rfl⟩ := hx
+              have : a.1 = h' := by simpa using hxe
+              rw [this] at hah
+              exact hhit hah
+            simp [hhit, hdb', hnd]
+      · rename_i hcoll
+        refine ⟨_, Ext.trans (Ext.filter t.catalog _ ?_) (Ext.appendEvs (_, nu) _), ?_⟩
+        · exact hkeep
+        · intro h' hne
+          rw [docsOf_appendEvs _ _ _ hne, hcat0, List.nil_append, fold_drops]
+          by_cases hhit : (h' == h || (h.coll == "" && h'.db == h.db)) = true
+          · simp only [hhit, Bool.not_true, Bool.false_eq_true, ↓reduceIte]
+            split
+            · rfl
+            · rename_i hnd
+              exact (hmem h' (by simpa only [Bool.not_eq_true] using hnd) hhit).symm
+          · have hnd : (((t.catalog.namespaces.filter
+                fun x => (x.1 == h || (h.coll == "" && x.1.db == h.db))).map (·.1)).any (· == h')) = false := by
+              rw [List.any_eq_false]
+              intro x hx hxe
+              simp only [List.mem_map, List.mem_filter] at hx
+              obtain ⟨a, ⟨_, hah⟩, rfl⟩ := hx
+              have : a.1 = h' := by simpa using hxe
+              rw [this] at hah
+              exact hhit hah
+            simp [hhit, hnd]
+
 end Lungo
